@@ -682,7 +682,7 @@ def _pss_verify_requires(ns):
     return S.And(ns.emBits >= 1, ns.emBits <= EMBITS_MAX, ns.sLen >= 0, S.len_(ns.EM) == ceil8(ns.emBits))
 
 
-PSS_HASHES = ('sha256', 'sha384', 'sha512', 'sha1')
+PSS_HASHES = ('sha256', 'sha384', 'sha512')      # the hashes TLS uses with RSA-PSS (sha1/sha224/md5: bounded run only)
 
 per_hash(RK + 'EMSA_PSS_verify', 'RSAKey.EMSA_PSS_verify',
          lambda h: {'self': rsa_key(), 'mHash': T.bytes(), 'EM': T.bytes(), 'emBits': T.int(),
@@ -775,12 +775,14 @@ def _modbits(ns):
     return MC.bitlen(kN(ns))
 
 
-def _pssv_spec(ns):
-    """RFC 8017 8.1.2 on (n, e): length / range of S, EM = I2OSP(m, emLen), EMSA-PSS-VERIFY(mHash, EM, modBits - 1)"""
+def _pssv_spec(ns, em_len_is_k=True):
+    """RFC 8017 8.1.2 on (n, e): length / range of S, EM = I2OSP(m, emLen), EMSA-PSS-VERIFY(mHash, EM, modBits - 1).
+    em_len_is_k: the caller's precondition contains emLen == k (modBits != 1 mod 8); the length of EM is then
+    written as k, which is the same number."""
     emBits = _modbits(ns) - 1
     emLen = ceil8(emBits)
     m = VInt(RsaPub(MC.b2i(ns.S).t, kE(ns).t, kN(ns).t))
-    EM = MC.i2b(m, emLen)
+    EM = MC.i2b(m, kK(ns) if em_len_is_k else emLen)
     return S.And(S.Not(pub_invalid(ns, ns.S)), m < S.pow256(emLen),
                  PssSpec(ns.mHash, EM, emBits, _hs(ns), ns.sLen).consistent())
 
@@ -791,9 +793,9 @@ def _pssv_contracts(tag, extra_req, doc):
                   ('sha256',) if tag else PSS_HASHES,
                   requires=lambda ns: S.And(kN(ns) > 1, _modbits(ns) <= EMBITS_MAX, ns.sLen >= 0, extra_req(ns)),
                   result=T.bool(),
-                  raises={InvalidSignature: lambda ns: S.Not(_pssv_spec(ns))},
-                  ensures=lambda ns: S.And(ns.result, _pssv_spec(ns.old)),
-                  cover=not tag, opts={'budget_factor': 4}, prop='C10', doc=doc)
+                  raises={InvalidSignature: lambda ns: S.Not(_pssv_spec(ns, not tag))},
+                  ensures=lambda ns: S.And(ns.result, _pssv_spec(ns.old, not tag)),
+                  cover=not tag, opts={'budget_factor': 1 if tag else 4}, prop='C10', doc=doc)
     return cs
 
 
@@ -816,7 +818,47 @@ def _pss_sign_ensures(ns):
     if salt is None:
         return ok
     EM = pss_encoding(ns.mHash, _modbits(ns.old) - 1, _hs(ns), salt)
-    return S.And(ok, ns.result == priv_bytes(ns.old, EM), S.len_(ns.result) == kK(ns.old))
+    return S.And(ok, ns.result == priv_bytes(ns.old, EM), S.len_(ns.result) == kK(ns.old),
+                 MC.b2i(EM) < kN(ns.old))          # OS2IP(EM) < n: the encoded message is a valid message representative
+
+
+def _sign_apply(c, ex, args, kwargs, st, fr, node):
+    """modular use of RSASSA_PSS_sign: one RNG draw of sLen bytes (recorded as event), result per RFC 8017 8.1.1"""
+    from pyvc.contract import NS
+    from pyvc import source
+    fs = source.load(c.qual)
+    env = ex.bind_params(fs, args, kwargs, st, fr)
+    line = getattr(node, 'lineno', 0)
+    cst = st.fork()
+    cst.env = env
+    ns = NS(ex, cst, fr)
+    ex.oblige(st, 'call:%s:requires@L%d' % (c.name, line), truthy(_lift(c.requires(ns))), kind='call-requires', where=line)
+    bad = truthy(_lift(c.raises[EncodingError][1](ns)))
+    outs = []
+    s_bad = st.fork()
+    s_bad.assume(bad)
+    if ex.feasible(s_bad):
+        outs.append(Outcome('raise', s_bad, VExc(EncodingError, [], 'call %s line %d' % (c.name, line))))
+    s_ok = st.fork()
+    s_ok.assume(z3.Not(bad))
+    if ex.feasible(s_ok):
+        salt = T.bytes().make('salt', s_ok, ex.bv)
+        s_ok.assume(slen(salt.t) == env['sLen'].t)
+        s_ok.events.append(('rng', [env['sLen']], salt))
+        res = T.bytes().make('ret_RSASSA_PSS_sign', s_ok, ex.bv)
+        EM = pss_encoding(env['mHash'], _modbits(ns) - 1, _hs(ns), salt)
+        sig_int = VInt(RsaPriv(kN(ns).t, kD(ns).t, MC.b2i(EM).t))
+        s_ok.assume(truthy(S.And(res == priv_bytes(ns, EM), S.len_(res) == kK(ns), MC.b2i(EM) < kN(ns),
+                                 sig_int >= 0, sig_int < kN(ns))))     # residue range: trusted model of the raw operation
+        outs.append(Outcome('normal', s_ok, res))
+    return outs
+
+
+def _reachable(st, what):
+    """vacuity guard for scenarios: the state in which a claim is made must be satisfiable"""
+    from pyvc.contract import _check_sat
+    if not _check_sat(st.pc):
+        raise RuntimeError('vacuous scenario: state unreachable at ' + what)
 
 
 def _pss_sign_contracts(tag, extra_req, doc):
@@ -827,7 +869,7 @@ def _pss_sign_contracts(tag, extra_req, doc):
                     result=T.bytes(),
                     raises={EncodingError: ('iff', lambda ns: ceil8(_modbits(ns) - 1) < MC.HASH_SIZES[_hs(ns)] + ns.sLen + 2),
                             MessageTooLongError: lambda ns: VBool(z3.BoolVal(False))},
-                    ensures=_pss_sign_ensures, cover=not tag, prop='C10', doc=doc)
+                    ensures=_pss_sign_ensures, apply_fn=_sign_apply, cover=not tag, prop='C10', doc=doc)
 
 
 _pss_sign_contracts('', _not_1_mod_8,
@@ -922,7 +964,166 @@ REG.note('C10', 'assumptions', 'PKCS#1 v1.5 exactness is proved for k >= |T| + 1
                                'obligation verify[pkcs1-short-modulus] (fails on the pinned tree: class pkcs1-short-ps-accepted)')
 REG.note('C10', 'assumptions', 'PSS: emBits <= 2^24 (MGF1 "mask too long" unreachable), sLen >= 0; RSASSA-PSS contracts are split by '
                                'modBits mod 8: != 1 proved, == 1 expected to fail on the pinned tree (class pss-modbits-1-mod-8)')
-REG.note('C10', 'not_built', 'PSS sign/verify round trip as one lemma (needs (x^y)^y == x under the leading-bit mask and RSA correctness '
-                             'RsaPub(RsaPriv(m)) == m); covered by the bounded differential run rsa_pss for every modBits mod 8')
+REG.note('C10', 'trusted', 'xor lemmas (x^y)^y == x and ((x^y) mod 2^t ^ y) mod 2^t == x mod 2^t on [0, 2^32): each proved in 34-bit '
+                           'bit-vector arithmetic when contracts.rsa is imported')
+REG.note('C10', 'not_built', 'PSS round-trip lemmas are instantiated for SHA-256 only (the contract texts are hash-generic; other hashes are '
+                             'covered by the bounded differential run rsa_pss)')
 REG.note('C10', 'not_built', '_addPKCS1Padding block type 2 (encryption padding, random non-zero filter loop); hashAndSign; rsa-pss key refusing '
                              'pkcs1 in sign(); Python_RSAKey._rawPrivateKeyOp CRT/blinding algebra (Lean lemmas of DESIGN.md)')
+
+
+# ===========================================================================
+# O-pss-roundtrip (specification level): every EMSA-PSS encoding passes EMSA-PSS verification.
+# Together with EMSA_PSS_encode (== pss_encoding), EMSA_PSS_verify (<=> PssSpec.consistent) and the raw
+# operations this gives verify(sign(m)) for modBits != 1 mod 8, assuming RsaPub(RsaPriv(m)) == m.
+
+def _xor_lemmas():
+    """(x ^ y) ^ y == x, also under a low-bit mask; each instance is first proved in bit-vector arithmetic"""
+    x, y = z3.Ints('xl_x xl_y')
+    bx = smt.bxor
+    W = 34
+    xb, yb = z3.BitVecs('xl_xb xl_yb', W)
+    rng = z3.And(z3.ULT(xb, z3.BitVecVal(1 << 32, W)), z3.ULT(yb, z3.BitVecVal(1 << 32, W)))
+
+    def bv_valid(f):
+        s = z3.Solver()
+        s.set('timeout', 20000)
+        s.add(rng, z3.Not(f))
+        if s.check() != z3.unsat:
+            raise RuntimeError('xor lemma not proved in BV')
+    A = []
+    bv_valid(((xb ^ yb) ^ yb) == xb)
+    inr = z3.And(0 <= x, x < (1 << 32), 0 <= y, y < (1 << 32))
+    A.append(z3.ForAll([x, y], z3.Implies(inr, bx(bx(x, y), y) == x), patterns=[bx(bx(x, y), y)]))
+    for t in range(1, 9):
+        m = (1 << t) - 1
+        bv_valid(((((xb ^ yb) & m) ^ yb) & m) == (xb & m))
+        A.append(z3.ForAll([x, y], z3.Implies(inr, bx(bx(x, y) % (1 << t), y) % (1 << t) == x % (1 << t)),
+                           patterns=[bx(bx(x, y) % (1 << t), y)]))
+    return A
+
+
+smt.AXIOMS.extend(_xor_lemmas())
+
+
+def _pss_rt(h, zbits):
+    def body(api):
+        st = api.st
+        mHash = api.make('mHash', T.bytes())
+        salt = api.make('salt', T.bytes())
+        emBits = api.make('emBits', T.int(1, EMBITS_MAX))
+        hLen = MC.HASH_SIZES[h]
+        emLen = ceil8(emBits)
+        sLen = S.len_(salt)
+        st.assume(truthy(S.And(emLen >= hLen + sLen + 2, 8 * emLen - emBits == zbits)))
+        EM = pss_encoding(mHash, emBits, h, salt)
+        sp = PssSpec(mHash, EM, emBits, h, sLen)
+        _reachable(st, 'hypotheses')
+        api.oblige(st, 'encoding-length', S.len_(EM) == emLen)
+        for name, cond in sp.steps():
+            api.oblige(st, 'step ' + name, cond)
+    return body
+
+
+for _z in range(8):
+    scenario('pss-encode-then-verify[sha256,%d-spare-bits]' % _z, ('C10',),
+             doc='RFC 8017: EMSA-PSS-VERIFY accepts every output of EMSA-PSS-ENCODE (emLen >= hLen+sLen+2, 8emLen-emBits = %d)' % _z
+             )(_pss_rt('sha256', _z))
+
+
+ValidKey = S.uf('RsaValidKey', [I, I, I], smt.B)      # (n, e, d) form a working RSA key pair
+
+
+def _valid_key_axiom():
+    n, e, d, m = z3.Ints('vk_n vk_e vk_d vk_m')
+    return [z3.ForAll([n, e, d, m], z3.Implies(z3.And(ValidKey(n, e, d), 0 <= m, m < n),
+                                               RsaPub(RsaPriv(n, d, m), e, n) == m),
+                      patterns=[RsaPub(RsaPriv(n, d, m), e, n)])]
+
+
+smt.AXIOMS.extend(_valid_key_axiom())     # definition of the assumption "valid key": public op inverts private op
+
+
+def _pss_sign_verify(zbits):
+    def body(api):
+        st = api.st
+        key = api.make('key', rsa_key())
+        mHash = api.make('mHash', T.bytes())
+        sLen = api.make('sLen', T.int(0, None))
+        h = VStr('sha256')
+        ns0 = api.ns(st)
+        n, e, d = ns0.f(key, 'n'), ns0.f(key, 'e'), ns0.f(key, 'd')
+        modBits = MC.bitlen(n)
+        emBits = modBits - 1
+        emLen = ceil8(emBits)
+        k = MC.numbytes(n)
+        st.assume(truthy(S.And(n > 1, modBits <= EMBITS_MAX, (modBits - 1) % 8 != 0, emLen == k,
+                               8 * emLen - emBits == zbits, VBool(ValidKey(n.t, e.t, d.t)))))
+        _reachable(st, 'hypotheses')
+
+        def cut(s, name, f):
+            """prove f in state s, then use it (cut rule)"""
+            api.oblige(s, name, f)
+            s.assume(truthy(_lift(f)))
+        for o in api.call(RK + 'RSASSA_PSS_sign', [key, mHash, h, sLen], st, inline=False):
+            if o.kind != 'normal':
+                if o.val.cls is EncodingError:
+                    continue                      # emLen < hLen + sLen + 2: nothing to verify
+                api.unreachable(o.st, 'sign-raises-only-encoding-error(%s)' % o.val.cls.__name__)
+                continue
+            s1, sig = o.st, o.val
+            salt = [ev for ev in s1.events if ev[0] == 'rng'][-1][2]
+            EM = pss_encoding(mHash, emBits, 'sha256', salt)
+            m = MC.b2i(EM)
+            sig_int = VInt(RsaPriv(n.t, d.t, m.t))
+            _reachable(s1, 'sign returns')
+            cut(s1, 'rt1: len(EM) == emLen', S.len_(EM) == emLen)
+            cut(s1, 'rt2: OS2IP(S) is the signature representative', MC.b2i(sig) == sig_int)
+            cut(s1, 'rt3: RSAVP1(RSASP1(m)) == m', VInt(RsaPub(MC.b2i(sig).t, e.t, n.t)) == m)
+            cut(s1, 'rt4: I2OSP(m, emLen) == EM', MC.i2b(m, emLen) == EM)
+            sp = PssSpec(mHash, EM, emBits, 'sha256', sLen)
+            for name, cond in sp.steps():
+                cut(s1, 'rt5 step ' + name, cond)
+            for o2 in api.call(RK + 'RSASSA_PSS_verify', [key, mHash, sig, h, sLen], s1, inline=False):
+                if o2.kind != 'normal':
+                    api.unreachable(o2.st, 'own-signature-verifies(%s)' % o2.val.cls.__name__)
+                else:
+                    _reachable(o2.st, 'verify returns')
+                    api.oblige(o2.st, 'verify-returns-True', o2.val)
+    return body
+
+
+for _z in range(1, 8):         # 8emLen - emBits == 0 is the excluded case modBits = 1 mod 8
+    scenario('pss-sign-then-verify[sha256,%d-spare-bits]' % _z, ('C10',),
+             doc='O-pss-roundtrip: RSASSA_PSS_verify(RSASSA_PSS_sign(mHash)) is True for every modulus bit length != 1 mod 8 '
+                 '(8emLen-emBits = %d), every salt length with emLen >= hLen+sLen+2; assumes RsaPub(RsaPriv(m)) == m' % _z,
+             opts={'budget_factor': 4})(_pss_sign_verify(_z))
+REG.note('C10', 'assumptions', 'round-trip lemmas assume a valid key pair: RsaPub(RsaPriv(n, d, m), e, n) == m for 0 <= m < n')
+
+
+@scenario('pkcs1-sign-then-verify', ('C10',),
+          doc='_raw_pkcs1_verify(_raw_pkcs1_sign(T), T) is True for every T with k >= |T| + 11 and every valid key '
+              '(assumes RsaPub(RsaPriv(m)) == m)')
+def _pkcs1_roundtrip(api):
+    st = api.st
+    key = api.make('key', rsa_key())
+    Tb = api.make('T', T.bytes())
+    ns0 = api.ns(st)
+    n, e, d = ns0.f(key, 'n'), ns0.f(key, 'e'), ns0.f(key, 'd')
+    st.assume(truthy(S.And(n > 1, d != 0, MC.numbytes(n) >= S.len_(Tb) + 11, VBool(ValidKey(n.t, e.t, d.t)))))
+    _reachable(st, 'hypotheses')
+    for o in api.call(RK + '_raw_pkcs1_sign', [key, Tb], st, inline=False):
+        if o.kind != 'normal':
+            api.unreachable(o.st, 'sign-does-not-raise(%s)' % o.val.cls.__name__)
+            continue
+        _reachable(o.st, 'sign returns')
+        EM = emsa_pkcs1(MC.numbytes(n), Tb)
+        sig_int = VInt(RsaPriv(n.t, d.t, MC.b2i(EM).t))
+        api.oblige(o.st, 'rt1: OS2IP(EM) < n', MC.b2i(EM) < n)
+        o.st.assume(truthy(S.And(MC.b2i(EM) < n, sig_int >= 0, sig_int < n)))      # residue range: trusted model of the raw operation
+        for o2 in api.call(RK + '_raw_pkcs1_verify', [key, o.val, Tb], o.st, inline=False):
+            if o2.kind != 'normal':
+                api.unreachable(o2.st, 'verify-does-not-raise')
+                continue
+            _reachable(o2.st, 'verify returns')
+            api.oblige(o2.st, 'verify-returns-True', o2.val)
